@@ -147,6 +147,10 @@ type Run struct {
 	// C19: schema constants that changed after a machine was created from them
 	SchemaMutated []string
 	SchemaUseRan  bool
+	// C05 bounded handler-sequence stand-in
+	SFailing []string
+	STotal   int
+	SRan     bool
 	// C01 bounded clock stand-in
 	CFailing []string
 	CTotal   int
@@ -342,6 +346,13 @@ func verifyRun(opts *RunOpts) (*Run, error) {
 			run.ExtraNotes = append(run.ExtraNotes, "bounded queue stand-in did not run: "+err.Error())
 		} else {
 			run.QFailing, run.QTotal, run.QRan = f, total, true
+		}
+	}
+	if opts.Prop == "C05" {
+		if f, total, err := runBoundedHandlerSeq(opts); err != nil {
+			run.ExtraNotes = append(run.ExtraNotes, "bounded handler-sequence stand-in did not run: "+err.Error())
+		} else {
+			run.SFailing, run.STotal, run.SRan = f, total, true
 		}
 	}
 	if opts.Prop == "C05" {
